@@ -494,6 +494,13 @@ func c34Sequential(r *ev.Run) (map[string]any, bool) {
 		return cov, false
 	}
 
+	// ----- imports whose ids are not in stream order, builder between two of their commits
+	dcov, dcomplete := c34DisorderedImports(r, base, src)
+	cov["disordered_imports"] = dcov
+	if r.HasEngineError() {
+		return cov, false
+	}
+
 	// ----- histories
 	hists := c34Histories(depth)
 	type task struct {
@@ -540,7 +547,7 @@ func c34Sequential(r *ev.Run) (map[string]any, bool) {
 		}()
 	}
 	wg.Wait()
-	complete := !stopped.Load() && !r.HasEngineError()
+	complete := !stopped.Load() && !r.HasEngineError() && dcomplete
 
 	type classStat struct {
 		Evaluations int            `json:"evaluations"`
